@@ -197,7 +197,7 @@ class Controller:
     def idle(self, loop):
         """Ready queue empty (after purging cancelled timers)."""
         if self.passthrough:
-            if loop._scheduled:
+            if loop._scheduled and loop._scheduled[0]._when != float("inf"):
                 loop._vtime = max(loop._vtime, loop._scheduled[0]._when)
                 return
             if self.thread_wait is not None and self.thread_wait(loop):
@@ -206,7 +206,8 @@ class Controller:
         if self.idle_hook is not None and self.idle_hook(loop):
             return
         en = self._enabled_actions()
-        timer = bool(loop._scheduled)
+        # (a timer at +inf, e.g. sleep_forever(), never fires: it does not count)
+        timer = bool(loop._scheduled) and loop._scheduled[0]._when != float("inf")
         if timer and loop._scheduled[0]._when < loop._vtime + loop._clock_resolution:
             return  # a due timer will be moved to the ready queue right away
         n = len(en) + (1 if timer else 0)
@@ -254,7 +255,7 @@ class EnvController(Controller):
         acts = self._enabled_actions()
         n = len(evs) + len(acts)
         if n == 0:
-            if loop._scheduled:
+            if loop._scheduled and loop._scheduled[0]._when != float("inf"):
                 loop._vtime = max(loop._vtime, loop._scheduled[0]._when)
                 return
             raise Deadlock("no ready handle, no environment event enabled")
